@@ -6,6 +6,7 @@ abstract statement language), `Model/Scratch.lean` (the scratch-word machines of
 internal/cgen/builtin.go and the chunk driver). Helper lemmas: `Proof/Liveness*.lean`.
 -/
 import WuffsVerif.Proof.LivenessTop
+import WuffsVerif.Proof.ScratchProg
 import WuffsVerif.Gen.C05_Tables
 
 namespace WuffsVerif.Props.C05
@@ -76,5 +77,86 @@ does exist for the saved one. -/
 example : resumables 2
     [.assign .eq (.var 0) ⟨false, false, []⟩, .ret true ⟨false, false, []⟩,
      .assign .eq (.var 1) ⟨false, false, [0]⟩, .assign .eq .none ⟨true, true, [1]⟩] = [0] := by decide +kernel
+
+/-! ## The scratch-word machines (builtin.go) -/
+
+open WuffsVerif.Scratch
+
+def rowOK (m : RdMethod) : Bool :=
+  m.n == 8 || (decide (16 ≤ m.n) && decide (m.n ≤ 64) && m.n % 8 == 0 && decide (m.n ≤ m.size))
+
+theorem rowOK_sound (m : RdMethod) (h : rowOK m = true) : m.n = 8 ∨ m.Valid := by
+  unfold rowOK at h
+  simp only [Bool.or_eq_true, beq_iff_eq, Bool.and_eq_true, decide_eq_true_eq] at h
+  rcases h with h | ⟨⟨⟨h1, h2⟩, h3⟩, h4⟩
+  · exact Or.inl h
+  · exact Or.inr ⟨h1, h2, h3, h4⟩
+
+/-- Every row of the regenerated `readMethods` table (builtin.go) is a one-byte read or a
+well-formed multi-byte read: 16 ≤ xx ≤ 64, 8 ∣ xx, xx ≤ yy. (Breaks if the table changes shape.) -/
+theorem readMethods_rows_ok : ∀ p ∈ WuffsVerif.Gen.C05.readMethods, rowOK p.2 = true := by decide
+
+/-- **scratch_read_correct.** For each row `(yy, xx, endianness)` of the regenerated `readMethods`
+table and EVERY byte sequence delivered in ANY split across resumptions (`pending` is what the
+first call sees, `future` the chunks supplied at each later `$short read`, empty chunks allowed):
+if at least `xx/8` bytes arrive in total, the machine — fast path, or the `scratch`/`num_bits`
+loop resumed as often as needed — ends with exactly `peek_uXXYe` of the first `xx/8` bytes of the
+concatenation, has advanced `iop` by `xx/8` in total, and leaves the rest of the stream unread;
+otherwise it ends starved (`$short read` on a closed source) having consumed everything. -/
+theorem scratch_read_correct (name : String) (m : RdMethod)
+    (hrow : (name, m) ∈ WuffsVerif.Gen.C05.readMethods)
+    (pending : List UInt8) (future : List (List UInt8)) (c s : Nat) :
+    (m.n / 8 ≤ (pending ++ future.flatten).length →
+      ∃ src, readGo m RdSt.start pending c s future =
+          (some (peek m.be ((pending ++ future.flatten).take (m.n / 8))), src) ∧
+        src.consumed = c + m.n / 8 ∧
+        src.pending ++ src.future.flatten = (pending ++ future.flatten).drop (m.n / 8)) ∧
+    (¬ m.n / 8 ≤ (pending ++ future.flatten).length →
+      ∃ s', readGo m RdSt.start pending c s future =
+        (none, ⟨[], [], c + (pending ++ future.flatten).length, s'⟩)) := by
+  rcases rowOK_sound m (readMethods_rows_ok (name, m) hrow) with h8 | hv
+  · have := read8Go_spec m h8 future pending c s
+    simpa [h8] using this
+  · have := readGo_spec m hv future RdSt.start [] pending c s (Or.inl ⟨rfl, rfl⟩)
+      (by have := hv.lo; simp; omega)
+    simpa using this
+
+/-- non-vacuity: `read_u24le_as_u64?` of 01 02 03 delivered as 01 | (nothing) | 02 | 03 ff. -/
+example : ("read_u24le_as_u64", (⟨64, 24, false⟩ : RdMethod)) ∈ WuffsVerif.Gen.C05.readMethods ∧
+    (readGo ⟨64, 24, false⟩ RdSt.start [1] 0 0 [[], [2], [3, 255]]).1 = some 0x030201 := by
+  decide
+
+/-- `skip?` / `skip_u32?` (count kept in `scratch` across suspensions): skips exactly `n` bytes of
+the concatenated stream however it is split, or starves having consumed everything. -/
+theorem scratch_skip_correct (n : Nat) (pending : List UInt8) (future : List (List UInt8)) (c s : Nat) :
+    (n ≤ (pending ++ future.flatten).length →
+      ∃ src, skipGo n pending c s future = (true, src) ∧ src.consumed = c + n ∧
+        src.pending ++ src.future.flatten = (pending ++ future.flatten).drop n) ∧
+    (¬ n ≤ (pending ++ future.flatten).length →
+      ∃ s', skipGo n pending c s future = (false, ⟨[], [], c + (pending ++ future.flatten).length, s'⟩)) :=
+  skipGo_spec future n pending c s
+
+/-- `write_u8?` (value kept in `scratch`): whatever the sequence of destination capacity pieces
+(zero-sized ones included), exactly the one byte is appended. -/
+theorem scratch_write_correct (v room : Nat) (out : List UInt8) (ns : Nat) (pieces : List Nat) :
+    (writeGo v room out ns pieces).1.out = out ++ [UInt8.ofNat (v % 256)] :=
+  writeGo_out v pieces room out ns
+
+/-- **split_independent_F3s_partial.** For straight-line programs whose only I/O operations are
+the suspending built-ins (`read_uXXYe?` for the rows of `readMethods`, `skip?`, `skip?(n: 1)`,
+`write_u8?`), any two partitions of the source bytes into chunks and of the destination capacity
+into pieces give the same final status, observable state (registers), output bytes and consumed
+count — namely those of the one-shot meaning `runSeq`.
+PARTIAL: straight-line programs only (no branches, loops, nested coroutine calls); for the full
+fragment F3s, and for decoders that peek / test `length()` for fast paths, split-independence is
+sampled by harness/cmd/c05 sections C and D. -/
+theorem split_independent_F3s_partial (prog : List POp) (hok : ∀ op ∈ prog, op.OK)
+    (src1 dst1 src2 dst2 : List Nat) (bs : List UInt8) :
+    obs (runProgram prog src1 dst1 bs) = obs (runProgram prog src2 dst2 bs) := by
+  rw [runProgram_eq_runSeq prog hok, runProgram_eq_runSeq prog hok]
+
+/-- non-vacuity: a program that runs to completion and writes output. -/
+example : obs (runProgram [POp.rd ⟨16, 16, true⟩ 0, POp.skip1, POp.rd ⟨8, 8, true⟩ 1, POp.wr BinF.add 0 1]
+      [1, 0, 1] [0, 1] [1, 2, 3, 4]) = ⟨PStatus.ok, [0x0102, 4], [6], 4⟩ := by decide
 
 end WuffsVerif.Props.C05
